@@ -67,6 +67,7 @@ import (
 	"bufio"
 	"bytes"
 	"context"
+	"encoding/base64"
 	"encoding/json"
 	"errors"
 	"fmt"
@@ -111,6 +112,16 @@ type job struct {
 	// ToGoHTML: render with templ.ToGoHTML (the root package's pooled bytes.Buffer) instead of
 	// Render into a writer; Out is the returned HTML.
 	ToGoHTML bool ` + "`json:\"to_go_html\"`" + `
+	// B64: s1, s2 and xs are base64 (JSON cannot carry invalid UTF-8 or NUL-free guarantees).
+	B64 bool ` + "`json:\"b64\"`" + `
+}
+
+func unb64(s string) string {
+	b, err := base64.StdEncoding.DecodeString(s)
+	if err != nil {
+		panic("bad base64 argument: " + err.Error())
+	}
+	return string(b)
 }
 
 type bufSlot struct {
@@ -213,6 +224,14 @@ func runJob(j job, parallel bool) (r result) {
 			}
 		}()
 		a := j.Args
+		if j.B64 {
+			a.S1, a.S2 = unb64(a.S1), unb64(a.S2)
+			xs := make([]string, len(a.XS))
+			for i, x := range a.XS {
+				xs[i] = unb64(x)
+			}
+			a.XS = xs
+		}
 		var comp templ.Component = marker
 		if j.CompFailAfter >= 0 {
 			comp = failingMarker(j.CompFailAfter)
